@@ -2,6 +2,7 @@ import Gmx.Lemmas.PerpValue
 import Gmx.Lemmas.FundingBacked
 import Gmx.Props.C12
 import Gmx.Lemmas.Whole
+import Gmx.Lemmas.FundSim
 /-!
 # C08 — market token accounting is conserved and funding payouts stay backed
 
@@ -303,10 +304,9 @@ in USD / tokens and collateral sums per side and collateral token = Σ positions
 tokens = 0`) ∧ C13 (total borrowing of each side = Σ ⌊size · factor snapshot / UNIT⌋); `IdxLe` =
 C12/C13 monotonicity of the ten indices. Token-ledger conservation (C08) over such histories:
 position operations by `ledger_step_increase` / `ledger_step_decrease` (the same step functions),
-clock / fee-state / distribution operations by `whole_ledger_nonflow_ops`; PARTIAL: for deposit,
-withdrawal and swap the ledger identity (tokens in = growth, tokens out = decrease) is checked by
-the harness oracle only — missing lemma `liquidity_ops_ledger` (from mkt-liq's `DepositFacts` /
-`WithdrawFacts` / `ApplyFacts`). `funding_backed` over whole histories still needs
+clock / fee-state / distribution operations by `whole_ledger_nonflow_ops`, deposit / withdrawal /
+swap from mkt-liq's `DepositFacts` / `WithdrawFacts` / `ApplyFacts` (round 3b): `whole_ledger` holds
+for EVERY operation and `run_preserves_ledger` for every history. `funding_backed` over whole histories still needs
 `psys_simulates_fundsys` (see above). -/
 
 /-- **every operation of a whole-market history preserves `MarketInv`** (successful or failing). -/
@@ -363,6 +363,227 @@ theorem whole_ledger_nonflow_ops (W U : Nat) (c : PerpCfg) (rc : RateCfg) (s : P
       · cases hm
     · rfl
   · rfl
+
+/-- the flow-recording step is the step: the invariants above speak about the same states. -/
+theorem wstepF_state (W U : Nat) (c : PerpCfg) (rc : RateCfg) (s : PSys) (o : WOp) :
+    (s.wstepF W U c rc o).1 = s.wstep W U c rc o := by
+  cases o with
+  | openPos il cl => rfl
+  | inc i coll size pr =>
+    simp only [PSys.wstepF, PSys.wstep, PSys.stepF, PSys.step]
+    cases s.ps[i]? with
+    | none => rfl
+    | some p =>
+      simp only
+      cases increase W U s.m c pr p coll size with
+      | error e => rfl
+      | ok v => rfl
+  | dec i size wd fl pr =>
+    simp only [PSys.wstepF, PSys.wstep, PSys.stepF, PSys.step]
+    cases s.ps[i]? with
+    | none => rfl
+    | some p =>
+      simp only
+      cases decrease W U s.m c pr p size wd fl with
+      | error e => rfl
+      | ok v => rfl
+  | deposit l sh pr =>
+    simp only [PSys.wstepF, PSys.wstep, wMarketOpF, wMarketOp]
+    cases perpInOf W U s.m rc pr with
+    | none => rfl
+    | some pin =>
+      simp only
+      cases hd : deposit W U s.m ⟨l, sh, pr⟩ pin with
+      | mk m' e => cases e <;> rfl
+  | withdraw a pr =>
+    simp only [PSys.wstepF, PSys.wstep, wMarketOpF, wMarketOp]
+    cases perpInOf W U s.m rc pr with
+    | none => rfl
+    | some pin =>
+      simp only
+      cases hd : withdraw W U s.m ⟨a, pr⟩ pin with
+      | mk m' e => cases e <;> rfl
+  | swap il a pr =>
+    simp only [PSys.wstepF, PSys.wstep, wMarketOpF, wMarketOp]
+    cases swap W U s.m ⟨il, a, pr⟩ with
+    | error e => rfl
+    | ok v => rfl
+  | tick n => rfl
+  | updFunding pr =>
+    simp only [PSys.wstepF, PSys.wstep, wMarketOpF]
+    cases wMarketOp W U rc s.m (.updFunding pr) <;> rfl
+  | updBorrowing pr =>
+    simp only [PSys.wstepF, PSys.wstep, wMarketOpF]
+    cases wMarketOp W U rc s.m (.updBorrowing pr) <;> rfl
+  | distribute =>
+    simp only [PSys.wstepF, PSys.wstep, wMarketOpF]
+    cases wMarketOp W U rc s.m .distribute <;> rfl
+
+/-- **token-ledger step of EVERY whole-market operation** (`liquidity_ops_ledger` closed): accounted
+holdings after + tokens out + funding fee collected = accounted holdings before + tokens in
+(+ fee dust only for decreases with pnl token ≠ collateral token) — deposit (+ both amounts),
+withdrawal (− both outputs), swap (+ amount in, − amount out), increase, decrease / liquidation,
+and no change for the clock, fee-state and distribution operations. -/
+theorem whole_ledger (W U : Nat) (c : PerpCfg) (rc : RateCfg) (s : PSys) (o : WOp) :
+    ∃ paid dust : Bool → Nat, ∀ t,
+      ledger (s.wstepF W U c rc o).1.m t + (s.wstepF W U c rc o).2.out t + paid t
+        = ledger s.m t + (s.wstepF W U c rc o).2.inn t + dust t ∧
+      paid t ≤ (s.wstepF W U c rc o).2.fund t ∧
+      ((s.wstepF W U c rc o).2.short = false → paid t = (s.wstepF W U c rc o).2.fund t) ∧
+      ((s.wstepF W U c rc o).2.mixed = false → dust t = 0) := by
+  have plain : ∀ (s' : PSys) (f : Flow), f.fund = (fun _ => 0) → (∀ t, ledger s'.m t + f.out t = ledger s.m t + f.inn t) →
+      ∃ paid dust : Bool → Nat, ∀ t, ledger s'.m t + f.out t + paid t = ledger s.m t + f.inn t + dust t ∧
+        paid t ≤ f.fund t ∧ (f.short = false → paid t = f.fund t) ∧ (f.mixed = false → dust t = 0) := by
+    intro s' f hf hl
+    refine ⟨fun _ => 0, fun _ => 0, fun t => ⟨by have := hl t; omega, by rw [hf]; exact Nat.le_refl _, fun _ => by rw [hf], fun _ => rfl⟩⟩
+  have nonflow : ∀ o', ((∃ n, o' = WOp.tick n) ∨ (∃ pr, o' = WOp.updFunding pr) ∨ (∃ pr, o' = WOp.updBorrowing pr) ∨ o' = WOp.distribute ∨
+      (∃ a b, o' = WOp.openPos a b)) → ∀ m', wMarketOp W U rc s.m o' = some m' → ∀ t, ledger m' t = ledger s.m t := by
+    intro o' ho m' hm t
+    have := whole_ledger_nonflow_ops W U c rc s o' t ho
+    rcases ho with ⟨n, rfl⟩ | ⟨pr, rfl⟩ | ⟨pr, rfl⟩ | rfl | ⟨a, b, rfl⟩ <;> simp only [PSys.wstep, hm] at this
+    all_goals first | exact this | (simp [wMarketOp] at hm)
+  have viaMap : ∀ o', ((∃ n, o' = WOp.tick n) ∨ (∃ pr, o' = WOp.updFunding pr) ∨ (∃ pr, o' = WOp.updBorrowing pr) ∨ o' = WOp.distribute ∨
+      (∃ a b, o' = WOp.openPos a b)) →
+      ∃ paid dust : Bool → Nat, ∀ t,
+        ledger (match (wMarketOp W U rc s.m o').map (fun m' => (m', ({} : Flow))) with | some (m', _) => ({ s with m := m' } : PSys) | none => s).m t +
+          (match (wMarketOp W U rc s.m o').map (fun m' => (m', ({} : Flow))) with | some (_, f) => f | none => {}).out t + paid t
+          = ledger s.m t + (match (wMarketOp W U rc s.m o').map (fun m' => (m', ({} : Flow))) with | some (_, f) => f | none => {}).inn t + dust t ∧
+        paid t ≤ (match (wMarketOp W U rc s.m o').map (fun m' => (m', ({} : Flow))) with | some (_, f) => f | none => {}).fund t ∧
+        ((match (wMarketOp W U rc s.m o').map (fun m' => (m', ({} : Flow))) with | some (_, f) => f | none => {}).short = false →
+          paid t = (match (wMarketOp W U rc s.m o').map (fun m' => (m', ({} : Flow))) with | some (_, f) => f | none => {}).fund t) ∧
+        ((match (wMarketOp W U rc s.m o').map (fun m' => (m', ({} : Flow))) with | some (_, f) => f | none => {}).mixed = false → dust t = 0) := by
+    intro o' ho
+    cases hm : wMarketOp W U rc s.m o' with
+    | none => exact plain s {} rfl (fun _ => rfl)
+    | some m' => exact plain { s with m := m' } {} rfl (fun t => by simp [nonflow o' ho m' hm t])
+  cases o with
+  | openPos il cl => exact ledger_step W U c s (.openPos il cl)
+  | inc i coll size pr => exact ledger_step W U c s (.inc i coll size pr)
+  | dec i size wd fl pr => exact ledger_step W U c s (.dec i size wd fl pr)
+  | deposit l sh pr =>
+    simp only [PSys.wstepF, wMarketOpF]
+    cases perpInOf W U s.m rc pr with
+    | none => exact plain s {} rfl (fun _ => rfl)
+    | some pin =>
+      simp only
+      cases hd : deposit W U s.m ⟨l, sh, pr⟩ pin with
+      | mk m' e =>
+        cases e with
+        | error x => exact plain s {} rfl (fun _ => rfl)
+        | ok tr =>
+          exact plain { s with m := m' } { inn := fun t => if t then l else sh } rfl
+            (fun t => by have := Lem.deposit_ledger hd t; simp only at this ⊢; omega)
+  | withdraw a pr =>
+    simp only [PSys.wstepF, wMarketOpF]
+    cases perpInOf W U s.m rc pr with
+    | none => exact plain s {} rfl (fun _ => rfl)
+    | some pin =>
+      simp only
+      cases hd : withdraw W U s.m ⟨a, pr⟩ pin with
+      | mk m' e =>
+        cases e with
+        | error x => exact plain s {} rfl (fun _ => rfl)
+        | ok r =>
+          exact plain { s with m := m' } { out := fun t => if t then r.longOut else r.shortOut } rfl
+            (fun t => by have := Lem.withdraw_ledger hd t; simp only at this ⊢; omega)
+  | swap il a pr =>
+    simp only [PSys.wstepF, wMarketOpF]
+    cases hd : swap W U s.m ⟨il, a, pr⟩ with
+    | error x => exact plain s {} rfl (fun _ => rfl)
+    | ok v =>
+      obtain ⟨m', cc⟩ := v
+      exact plain { s with m := m' } { inn := fun t => tokAmt il t a, out := fun t => tokAmt (!il) t cc.tokenOut } rfl
+        (fun t => by have := Lem.swap_ledger hd t; simp only at this ⊢; omega)
+  | tick n => exact viaMap (.tick n) (Or.inl ⟨n, rfl⟩)
+  | updFunding pr =>
+    simp only [PSys.wstepF, wMarketOpF]
+    cases hm : wMarketOp W U rc s.m (.updFunding pr) with
+    | none => exact plain s {} rfl (fun _ => rfl)
+    | some m' =>
+      exact plain { s with m := m' } {} rfl
+        (fun t => by simp [nonflow (.updFunding pr) (Or.inr (Or.inl ⟨pr, rfl⟩)) m' hm t])
+  | updBorrowing pr =>
+    simp only [PSys.wstepF, wMarketOpF]
+    cases hm : wMarketOp W U rc s.m (.updBorrowing pr) with
+    | none => exact plain s {} rfl (fun _ => rfl)
+    | some m' =>
+      exact plain { s with m := m' } {} rfl
+        (fun t => by simp [nonflow (.updBorrowing pr) (Or.inr (Or.inr (Or.inl ⟨pr, rfl⟩))) m' hm t])
+  | distribute =>
+    simp only [PSys.wstepF, wMarketOpF]
+    cases hm : wMarketOp W U rc s.m .distribute with
+    | none => exact plain s {} rfl (fun _ => rfl)
+    | some m' =>
+      exact plain { s with m := m' } {} rfl
+        (fun t => by simp [nonflow .distribute (Or.inr (Or.inr (Or.inr (Or.inl rfl)))) m' hm t])
+
+/-- **token-ledger conservation over every whole-market history** (induction): accounted holdings
+after + all tokens paid out + funding fees collected = accounted holdings before + all tokens
+paid in (+ fee dust of mixed-token decreases). -/
+theorem run_preserves_ledger (W U : Nat) (c : PerpCfg) (rc : RateCfg) (ops : List WOp) : ∀ s : PSys,
+    ∃ paid dust : Bool → Nat, ∀ t,
+      ledger (s.wrunF W U c rc ops).1.m t + (s.wrunF W U c rc ops).2.out t + paid t
+        = ledger s.m t + (s.wrunF W U c rc ops).2.inn t + dust t ∧
+      paid t ≤ (s.wrunF W U c rc ops).2.fund t ∧
+      ((s.wrunF W U c rc ops).2.short = false → paid t = (s.wrunF W U c rc ops).2.fund t) ∧
+      ((s.wrunF W U c rc ops).2.mixed = false → dust t = 0) := by
+  induction ops with
+  | nil =>
+    intro s
+    exact ⟨fun _ => 0, fun _ => 0, fun t => ⟨by simp [PSys.wrunF], Nat.le_refl _, fun _ => rfl, fun _ => rfl⟩⟩
+  | cons o os ih =>
+    intro s
+    obtain ⟨p1, d1, h1⟩ := whole_ledger W U c rc s o
+    obtain ⟨p2, d2, h2⟩ := ih (s.wstepF W U c rc o).1
+    refine ⟨fun t => p1 t + p2 t, fun t => d1 t + d2 t, fun t => ?_⟩
+    obtain ⟨a1, a2, a3, a4⟩ := h1 t
+    obtain ⟨b1, b2, b3, b4⟩ := h2 t
+    simp only [PSys.wrunF, Flow.add]
+    refine ⟨by omega, by omega, ?_, ?_⟩
+    · intro hs
+      simp only [Bool.or_eq_false_iff] at hs
+      rw [a3 hs.1, b3 hs.2]
+    · intro hm
+      simp only [Bool.or_eq_false_iff] at hm
+      rw [a4 hm.1, b4 hm.2]
+
+/-! ### pieces of `psys_simulates_fundsys` (round 3b)
+
+The three identifications between the faithful model and the `FundSys` abstraction of
+`funding_backed`. Still missing for the composition (`psys_simulates_fundsys` proper): the
+projection `fproj k : PSys → FundSys` with ghost `collected` / `claimed`, `fproj_update` (assemble
+the three theorems below through `marketUpdateFunding` / `C12.indices_monotone`), `fproj_settle`
+(the reports of `increase` / `decrease` carry the `positionFees` of the pre-state:
+`processCollateral` keeps `claimL` / `claimS`, as `processCollateral_fund` shows for `fundAmount`;
+the snapshots after the operation are the market's indices), and the induction over `PSys.wrun`
+excluding steps with `fundingShort`. -/
+
+/-- a funding update moves, per collateral token, exactly what `FundSys.update` moves. -/
+theorem funding_update_is_fundsys_update {W U adj : Nat} {p : FundingParams} {st : FundingState} {dur pl ps : Nat}
+    {r : FundingReport} (h : nextFundingAmounts W U adj p st dur pl ps = .ok r) :
+    (r.dF = Quad.zero ∧ r.dC = Quad.zero) ∨
+    ∃ lps fvL fvS recvOI, checkedAdd W (st.oi.get (!lps) true) (st.oi.get (!lps) false) = some recvOI ∧
+      packFunding W U adj fvL (st.oi.get lps true) pl true = some (r.dF.get lps true) ∧
+      packFunding W U adj fvS (st.oi.get lps false) ps true = some (r.dF.get lps false) ∧
+      r.dF.get (!lps) true = 0 ∧ r.dF.get (!lps) false = 0 ∧
+      packFunding W U adj fvL recvOI pl false = some (r.dC.get (!lps) true) ∧
+      packFunding W U adj fvS recvOI ps false = some (r.dC.get (!lps) false) ∧
+      r.dC.get lps true = 0 ∧ r.dC.get lps false = 0 :=
+  Lem.nextFundingAmounts_spec h
+
+/-- the funding fee charged and the claimable amounts credited by a position operation are what
+`FundSys.settle` pays and claims (pending amounts between indices and snapshots, old size). -/
+theorem position_fees_are_fundsys_settle {W U : Nat} {m : Market} {c : PerpCfg} {p : Pos} {cp : Price} {sd : Nat}
+    {bc : BalanceChange} {isLiq : Bool} {f : PosFees} (h : positionFees W U m c p cp sd bc isLiq = .ok f) :
+    unpackFunding W U m.cfg.fundingAdjustment ((fapsPool m p.isLong).amount p.collLong) p.fIdx p.sizeUsd true = some f.fundAmount ∧
+    unpackFunding W U m.cfg.fundingAdjustment (cfapsPool m p.isLong).long p.cIdxL p.sizeUsd false = some f.claimL ∧
+    unpackFunding W U m.cfg.fundingAdjustment (cfapsPool m p.isLong).short p.cIdxS p.sizeUsd false = some f.claimS :=
+  Lem.positionFees_funding h
+
+/-- under `MarketInv` the open interest the funding update reads is Σ positions (`oiPayK`, `oiSide`). -/
+theorem funding_oi_is_sum_of_positions {U : Nat} {s : PSys} (h : MarketInv U s) (il cl : Bool) :
+    (fundingStateOf s.m).oi.get il cl = sumKey (·.sizeUsd) il cl s.ps :=
+  Lem.oi_is_sum h il cl
 
 /-! ### Non-vacuity -/
 example : packFunding 64 (10 ^ 9) 10000 10368000 (20 * 10 ^ 9) 1 true = some 5184000000 := by rfl
